@@ -191,6 +191,8 @@ CHECKS = {
         "quick": {"shards": 16, "rounds": 1, "checks": 600, "timeout": 900},
         "thorough": {"shards": 16, "rounds": 8, "checks": 1000, "timeout": 3000},
         "assumptions": [
+            "about half of the phases keep a client transaction open (embedded read-only, embedded read-write = downgraded/refused, service handle) across the phase's replicated operations; progress is decided as a bound: every replicated apply, every client call and the read inside the open transaction return within 5 s (normal latency far below 1 ms; after a blocked violation has been recorded in a process, shrink candidates use 1.5 s)",
+            "manager cases end with Manager.Stop followed by GetNodeInfo and 3-6 mutator-table calls through the still answering service (the order of cmd/kevo Server.Shutdown); the invariant demanded there is: a node that reports role replica refuses every client mutation, and read_only agrees with what mutations experience; a node that reports another role after Stop may accept writes",
             "the API surface is enumerated at run time by reflection (interfaces.Engine minus Close, interfaces.Transaction, pb.KevoService_ServiceDesc); service handlers are invoked in process through the descriptor's handler functions (no network)",
             "replicated operations are applied by one goroutine through replication.EngineApplier.Apply and the facade's PutInternal/DeleteInternal/ApplyBatchInternal; merge entries are not generated (the engine never writes them)",
             "arguments respect the callers' preconditions: non-empty keys at engine level; mutator-table calls get valid requests (key 1-4096 bytes, at least one operation, a transaction begun with read_only=false) so that the only reason to refuse them is read-only mode",
@@ -201,7 +203,7 @@ CHECKS = {
     "C17": {
         "level": "exploration",
         # every case runs in a child process of its own (1x, or 4x when a begin timed out in the lock queue)
-        "quick": {"shards": 16, "rounds": 1, "checks": 300, "timeout": 900},
+        "quick": {"shards": 16, "rounds": 1, "checks": 260, "timeout": 900},
         "thorough": {"shards": 16, "rounds": 4, "checks": 600, "timeout": 3000},
         "shrinktime": "60s",
         "assumptions": [
